@@ -249,6 +249,66 @@ func (ex *Exec) libModel(full string, e *ast.CallExpr, callee *types.Func) ([]Va
 		lessJI := ex.evalPredLit(lit, []*T{j, i}, []types.Type{typInt, typInt})
 		ex.assume(ForallMulti([]string{"i", "j"}, Imp(And(Le(I(0), i), Lt(i, j), Lt(j, n)), Not(lessJI)), []*T{ex.elemAt(ns, elem, i), ex.elemAt(ns, elem, j)}))
 		return nil, true
+	case "slices.DeleteFunc":
+		// executed as the loop it is: out := s[:0:0]; for i := range s { if !del(s[i]) { out = append(out, s[i]) } }; return out.
+		// The loop is numbered like a source loop (loop N "slices.DeleteFunc(...") and takes invariants over dfi (index),
+		// dfout (elements kept so far) and dfin (the operand). The result is a new slice value: that DeleteFunc also
+		// rearranges the operand's array in place is not modelled (the operand must not be used afterwards).
+		lit, ok := ast.Unparen(e.Args[1]).(*ast.FuncLit)
+		if !ok {
+			break
+		}
+		ex.libUsed[full+" (as a loop; in-place rearrangement of the operand not modelled)"] = true
+		sv := ex.eval(e.Args[0])
+		elem := elemTypeOf(sv.Typ)
+		n := ex.loopOrdinalPeek(e.Pos())
+		idxKey := fmt.Sprintf("$dfi%d.%s", n, ex.name)
+		outKey := fmt.Sprintf("$dfout%d.%s", n, ex.name)
+		ex.heapSort[idxKey] = SInt
+		ex.heapSort[outKey] = SSlice
+		ex.keyType[outKey] = sv.Typ
+		ex.st.env[idxKey] = I(0)
+		ex.st.env[outKey] = MkSlice(I(0), I(0), I(0), I(0))
+		lsig, _ := ex.typeOf(lit).(*types.Signature)
+		lp := &loopParts{pos: e.Pos(), text: "slices.DeleteFunc(" + exprString(e.Args[0]), scopePos: e.Pos()}
+		lp.cond = func() *T { return Lt(ex.get(ex.st, idxKey), SLen(sv.T)) }
+		lp.autoInv = func() *T { i := ex.get(ex.st, idxKey); return And(Le(I(0), i), Le(i, SLen(sv.T))) }
+		lp.autoVar = func() *T { return Sub(SLen(sv.T), ex.get(ex.st, idxKey)) }
+		lp.bodyPre = func() {
+			i := ex.get(ex.st, idxKey)
+			x := ex.elemAt(sv.T, elem, i)
+			if !isByte(elem) {
+				ex.assume(ex.typeFact(elem, x))
+			}
+			x = ex.named(x, "dfelem")
+			var del *T = ex.fresh("del", SBool)
+			if lsig != nil {
+				rs := ex.inlineBody("lit:deletefunc@"+ex.posString(lit.Pos()), lsig, lit.Type, lit.Body, nil, nil, []Val{{x, elem}}, ex.pkg, ex.curContract(), false)
+				if len(rs) == 1 {
+					del = rs[0].T
+				}
+			}
+			if ex.st.dead {
+				return
+			}
+			base := ex.st
+			keep := ex.branch(base, Not(del), func() {
+				ex.st.env[outKey] = ex.appendOne(ex.get(ex.st, outKey), x, elem)
+			})
+			drop := ex.branch(base, del, func() {})
+			ex.st = ex.merge([]*State{keep, drop})
+		}
+		lp.post = func() { ex.st.env[idxKey] = Add(ex.get(ex.st, idxKey), I(1)) }
+		lp.bindIdx = func(sc *specCtx) {
+			sc.stateVars["dfi"] = stateVar{idxKey, typInt}
+			sc.stateVars["dfout"] = stateVar{outKey, sv.Typ}
+			sc.vars["dfin"] = sv
+		}
+		ex.execLoop(lp)
+		out := ex.get(ex.st, outKey)
+		delete(ex.st.env, idxKey)
+		delete(ex.st.env, outKey)
+		return []Val{{out, sv.Typ}}, true
 	case "slices.IndexFunc", "slices.ContainsFunc":
 		ex.libUsed[full] = true
 		s := ex.eval(e.Args[0])
@@ -348,6 +408,21 @@ func (ex *Exec) libModelVals(full string, callee *types.Func, recv *Val, args []
 			ex.assumptions["cryptobyte.NewBuilder called with a non-nil buffer: initial content ignored"] = true
 		}
 		return []Val{{ref, resTypes[0]}}, true
+	case "maps.Clone":
+		ex.libUsed[full] = true
+		mt, ok := args[0].Typ.Underlying().(*types.Map)
+		if !ok {
+			break
+		}
+		has, val := ex.mapHeaps(mt)
+		src := args[0].T
+		nm := ex.alloc("map")
+		for _, k := range []string{has, val, "$M.len"} {
+			cur := ex.get(ex.st, k)
+			ex.st.env[k] = Store(cur, nm, Select(cur, src))
+		}
+		// a nil map clones to nil
+		return []Val{{Ite(Eq(src, I(0)), I(0), nm), resTypes[0]}}, true
 	case "slices.Clone":
 		ex.libUsed[full] = true
 		s := args[0].T
@@ -522,15 +597,22 @@ func (ex *Exec) mapHeaps(mt *types.Map) (has, val string) {
 
 func (ex *Exec) mapKey(k Val) *T {
 	if k.T.S == SSlice {
-		ex.declare("strKey", []Sort{SSlice}, SInt)
-		ex.strKeys = append(ex.strKeys, k.T)
-		// congruence with all earlier string keys
-		for _, o := range ex.strKeys[:len(ex.strKeys)-1] {
-			if o != k.T {
-				ex.assume(Eq(bytesEq(o, k.T), Eq(App("strKey", SInt, o), App("strKey", SInt, k.T))))
+		// a string key is keyed by its content identity (cid: bytesEq(a, b) = (cid a = cid b) on every bytesEq term)
+		key := App("cid", SInt, k.T)
+		for _, bn := range ex.boundNames {
+			if strings.Contains(k.T.str, " "+bn+")") || strings.Contains(k.T.str, " "+bn+" ") || k.T.str == bn {
+				// a key under a quantifier: no ground facts (they would mention the bound variable)
+				return key
 			}
 		}
-		return App("strKey", SInt, k.T)
+		ex.strKeys = append(ex.strKeys, k.T)
+		// name the comparison with every earlier string key, so that "different contents, different key" is available
+		for _, o := range ex.strKeys[:len(ex.strKeys)-1] {
+			if o != k.T {
+				ex.assume(Eq(bytesEq(o, k.T), Eq(App("cid", SInt, o), key)))
+			}
+		}
+		return key
 	}
 	if st, ok := k.Typ.Underlying().(*types.Struct); ok {
 		if !hasStringField(st) {
